@@ -363,7 +363,7 @@ flatten_ndarray_to_sparse(struct ndsparse *array, size_t nrow, size_t ncol,
 static void
 divided_diffs(int order, int porder, int j, double* knots, double* out)
 {
-	double a[order], b[order];
+	double a[order+1], b[order+1];
 	double delta;
 	int i;
 
